@@ -286,7 +286,7 @@ def run(tier):
                         "registry history of a real 3-node cluster (scenario %s, seed %d) is not a behaviour of Distro.tla: "
                         "rejected at line %s %s; operations: %s" % (sc.kind, sc.seed, tv.get("rejected_at"), json.dumps(ln), json.dumps(sc.ops)[:700]),
                         {"seed": sc.seed, "kind": sc.kind, "rejected_at": tv.get("rejected_at"), "line": ln, "ops": sc.ops, "trace": sc.trace})
-        elif i == 0:
+        if i == 0:
             c.sample({"trace_head": sc.trace[:8]})
     good = next((s for s in scs if any(e["ev"] == "read" and e["view"] for e in s.trace)), None)
     if good is not None:
